@@ -45,9 +45,25 @@ func scenWriters(e *Env, args []string, r *rand.Rand) {
 	for w := 0; w < k; w++ {
 		var bodies [][]byte
 		for i := 0; i < n; i++ {
-			bodies = append(bodies, mk(w, i))
+			b := mk(w, i)
+			if m["lens"] == "sweep" {
+				// every body length from 3 upwards in turn (plus the largest ones at the end)
+				l := 3 + i
+				if i >= n-3 {
+					l = 4077 - (n - 1 - i)
+				}
+				b = make([]byte, l)
+				r.Read(b)
+				b[0], b[1], b[2] = byte(w), byte(i>>8), byte(i)
+			}
+			bodies = append(bodies, b)
 		}
 		p.plugin.Writers = append(p.plugin.Writers, bodies)
+	}
+	if d := atoi(m["estdelay"], 0); d > 0 {
+		// OnEstablished takes longer than a keepalive interval before it writes
+		p.plugin.EstDelay = time.Duration(d) * time.Millisecond
+		p.plugin.HandlerDelay = time.Duration(d) * time.Millisecond
 	}
 	if m["inside"] == "1" {
 		p.plugin.WriteInEstablished = [][]byte{mk(100, 0)[:3], append(mk(100, 1)[:3], 1, 2, 3)}
@@ -180,6 +196,14 @@ func scenHold(e *Env, args []string, r *rand.Rand) {
 	if m["pat"] == "slowupd" {
 		p.plugin.HandlerDelay = 600 * time.Millisecond
 	}
+	if m["pat"] == "onewrite" {
+		// one writer: waits for the first periodic KEEPALIVE interval to pass, then writes once
+		p.plugin.Writers = [][][]byte{{{0, 0, 1}}}
+		p.plugin.WriterStart = time.Duration(l)*time.Second/3 + 100*time.Millisecond
+		if rh := uint16(atoi(m["r"], 3)); rh < l && rh != 0 {
+			p.plugin.WriterStart = time.Duration(rh)*time.Second/3 + 100*time.Millisecond
+		}
+	}
 	if m["pat"] == "writes" {
 		var bodies [][]byte
 		for i := 0; i < 200; i++ {
@@ -236,6 +260,27 @@ func scenHold(e *Env, args []string, r *rand.Rand) {
 					c.send(wire.Update([]byte{0, 0, 0, 0}))
 				}
 				time.Sleep(gap)
+			}
+		case "onewrite":
+			// a single WriteUpdate shortly after a periodic KEEPALIVE, nothing else: the next KEEPALIVE is due one
+			// interval after that write
+			for time.Now().Before(deadline) {
+				time.Sleep(5 * time.Millisecond)
+			}
+		case "kaupdsilent":
+			// a KEEPALIVE, an UPDATE 0.8 s later, then silence: expiry one hold time after the UPDATE, not earlier
+			time.Sleep(200 * time.Millisecond)
+			c.send(wire.Keepalive())
+			time.Sleep(800 * time.Millisecond)
+			c.send(wire.Update([]byte{0, 0, 0, 0}))
+			for time.Now().Before(deadline) {
+				c.mu.Lock()
+				ended := c.ended
+				c.mu.Unlock()
+				if ended != "" {
+					break
+				}
+				time.Sleep(5 * time.Millisecond)
 			}
 		case "updsilent":
 			// one UPDATE, then silence: the session expires one hold time after that UPDATE, not later
@@ -548,6 +593,19 @@ func scenCollisionWindow(e *Env, args []string, r *rand.Rand) {
 	}
 	time.Sleep(time.Duration(r.Intn(3000)) * time.Microsecond)
 	release()
+	if variant == "ka" {
+		// the other connection became Established while the manager was at the collision select: from now on the
+		// peer has a session, and a further inbound connection is refused
+		// (only if it did: the select may as well have killed it)
+		if e.tr.wait(0, 150*time.Millisecond, func(ev Event) bool { return ev.Peer == p.key && ev.Ev == "cb.exit" && ev.Args[0] == "OnEstablished" }) >= 0 {
+			time.Sleep(10 * time.Millisecond)
+			e.tr.log(p.key, "probe", "busy", p.addr.String(), "127.0.0.1")
+			if pr := p.remote.dial(); pr != nil {
+				pr.waitMsgs(1, 100*time.Millisecond)
+				pr.waitEnd(stepWait)
+			}
+		}
+	}
 	// afterwards: whichever survived completes the handshake
 	time.Sleep(20 * time.Millisecond)
 	for _, c := range []*Conn{out, in} {
@@ -795,7 +853,7 @@ func scenShutdown(e *Env, args []string, r *rand.Rand) {
 			}
 			p.mark = e.tr.len()
 		}
-		p.bring(dir, point, 90, remoteID)
+		p.bring(dir, point, uint16(atoi(m["rhold"], 90)), remoteID)
 		if d := atoi(m["us"], 0); d > 0 {
 			time.Sleep(time.Duration(r.Intn(d)) * time.Microsecond)
 		}
@@ -1010,6 +1068,10 @@ func scenDamping(e *Env, args []string, r *rand.Rand) {
 		return
 	}
 	switch {
+	case strings.HasPrefix(how, "sentopen."):
+		// an OPEN that fails validation (NOTIFICATION code 2 sent): a protocol error like any other
+		c.send(wire.Header(1, openVariant(how[9:], 0)))
+		c.waitEnd(stepWait)
 	case strings.HasPrefix(how, "sent."):
 		c.send(stimulus(how[5:], r))
 		c.waitEnd(stepWait)
@@ -1551,6 +1613,9 @@ func init() {
 				}
 				// reset while the FSM goroutine is busy: later writes report the failure
 				out = append(out, fmt.Sprintf("writers:%s:k=1:n=3:end=rst-busy:inside=0:ms=50:i=%d", dir, rep))
+				// every body length in turn; callbacks that take longer than a keepalive interval and then write
+				out = append(out, fmt.Sprintf("writers:%s:k=1:n=420:end=cease:inside=0:lens=sweep:ms=250:i=%d", dir, rep))
+				out = append(out, fmt.Sprintf("writers:%s:k=0:n=0:end=cease:inside=1:estdelay=1300:ms=1500:i=%d", dir, rep))
 				// an empty body is a body; the handler's NOTIFICATION under the adversary; a Cease while writers are blocked
 				out = append(out, fmt.Sprintf("writers:%s:k=2:n=20:end=cease:inside=1:empty=1:ms=100:i=%d", dir, rep))
 				if dir == "in" {
@@ -1612,7 +1677,8 @@ func init() {
 		}
 		// the session under observation follows one that negotiated a different hold time (same peer; for
 		// dir=out the same FSM object)
-		out = append(out, "hold:out:l=3:r=3:pat=updsilent:ms=4800", "hold:in:l=6:r=3:pat=updsilent:ms=4800", "hold:out:l=3:r=3:pat=silent:st=openConfirm:ms=4500", "hold:in:l=3:r=9:pat=silent:st=openConfirm:ms=4500",
+		out = append(out, "hold:out:l=3:r=3:pat=onewrite:ms=3400", "hold:in:l=3:r=3:pat=onewrite:ms=3400", "hold:out:l=3:r=3:pat=kaupdsilent:ms=4600", "hold:in:l=3:r=3:pat=kaupdsilent:ms=4600",
+			"hold:out:l=3:r=3:pat=updsilent:ms=4800", "hold:in:l=6:r=3:pat=updsilent:ms=4800", "hold:out:l=3:r=3:pat=silent:st=openConfirm:ms=4500", "hold:in:l=3:r=9:pat=silent:st=openConfirm:ms=4500",
 			"hold:out:l=3:r=3:pat=slowupd:ms=5500", "hold:in:l=3:r=9:pat=slowupd:ms=5500", "hold:out:l=90:r=3:pat=ka:ms=3500", "hold:in:l=90:r=3:pat=silent:ms=4500",
 			"hold:out:l=30:r=3:r1=9:pat=ka:ms=3500", "hold:out:l=30:r=3:r1=9:pat=silent:ms=4500",
 			"hold:out:l=3:r=3:r1=0:pat=silent:ms=4500", "hold:out:l=30:r=0:r1=3:pat=ka:ms=3500", "hold:in:l=30:r=3:r1=9:pat=ka:ms=3500")
@@ -1645,6 +1711,11 @@ func init() {
 			for k := 0; k < 4; k++ {
 				out = append(out, fmt.Sprintf("collision-window:loser-down:lid=10.0.0.100:i=%d.%d", rep, k))
 			}
+			// identifiers far apart (more than 2^31): 10.0.0.100 against 192.0.2.1 and 250.0.0.1, both orders
+			for _, rid := range []string{"192.0.2.1", "250.0.0.1"} {
+				out = append(out, fmt.Sprintf("collision:lid=10.0.0.100:rid=%s:first=out:i=%d", rid, rep), fmt.Sprintf("collision:lid=10.0.0.100:rid=%s:first=in:i=%d", rid, rep))
+			}
+			out = append(out, fmt.Sprintf("collision:lid=200.0.0.1:rid=10.0.0.9:first=out:i=%d", rep), fmt.Sprintf("collision:lid=200.0.0.1:rid=10.0.0.9:first=in:i=%d", rep))
 			// the remote resolves the collision itself and sends Cease / Connection Collision Resolution on the loser
 			for _, lid := range []string{"10.0.0.100", "10.0.1.44"} {
 				out = append(out, fmt.Sprintf("collision:lid=%s:first=in:remotecease=1:i=%d", lid, rep), fmt.Sprintf("collision:lid=%s:first=out:remotecease=1:i=%d", lid, rep))
@@ -1684,6 +1755,10 @@ func init() {
 			for rep := 0; rep < n; rep++ {
 				out = append(out, fmt.Sprintf("shutdown:%s:collision:oc=%d:i=%d", api, rep%2, rep))
 			}
+			// negotiated hold time 0 (no timers): the Cease is still sent
+			for _, dir := range []string{"out", "in"} {
+				out = append(out, fmt.Sprintf("shutdown:%s:established:dir=%s:rhold=0", api, dir), fmt.Sprintf("shutdown:%s:openConfirm:dir=%s:rhold=0", api, dir))
+			}
 			// the stop hits a later connection of the same peer / FSM object
 			for _, dir := range []string{"out", "in"} {
 				for _, pt := range []string{"openSent", "openConfirm", "established"} {
@@ -1713,6 +1788,19 @@ func init() {
 			out = append(out, fmt.Sprintf("collision-window:queued-close:lid=10.0.0.100:i=%d", i), fmt.Sprintf("collision-window:queued-delete:lid=10.0.0.100:i=%d", i))
 		}
 		return out
+	}
+	// C10R: a small cross-section run under the Go race detector on every (quick) run of C10 — timing monitors are
+	// not judged there, only race reports and crashes
+	scenarioLists["C10R"] = func(tier string, r *rand.Rand) []string {
+		return []string{
+			"reconnect:stall:ih=100:cr=300", "reconnect:refuse:ih=50:cr=500", "reconnect:close@openSent+cease@established+reset@openConfirm:ih=50:cr=500",
+			"reconnect:dialrace:ih=50:cr=60", "collision:lid=10.0.0.100:first=out:i=0", "collision:lid=10.0.1.44:first=in:i=0",
+			"collision-window:ka:lid=10.0.0.100:i=0", "shutdown:close:established:dir=out:us=300:i=0", "shutdown:delete:established:dir=in:us=300:i=0",
+			"shutdown:close:openConfirm:dir=out:second=established", "shutdown:close:writers:dir=out:us=0:i=0", "api-race:delete-add:i=0", "api-race:close-add:i=0",
+			"writers:out:k=3:n=30:end=cease:inside=1:re=1:ms=80:i=0", "writers:in:k=2:n=20:end=cease:inside=1:rhold=0:ms=100:i=0",
+			"damping:out:established:sent.badmarker:expire=1:ms=600", "state-msg:out:established:open:second=1", "hold:out:l=3:r=3:pat=writes:ms=1500",
+			"updates:in:n=30:veto=0:k=0", "inbound-resume:st=established",
+		}
 	}
 	scenarioLists["C11"] = func(tier string, r *rand.Rand) []string {
 		out := []string{"reconnect:refuse:ih=200:cr=500", "reconnect:refuse:ih=50:cr=500", "reconnect:x:passive", "inbound-resume",
@@ -1774,6 +1862,9 @@ func init() {
 				out = append(out, fmt.Sprintf("damping:%s:%s:rcvdcease.%d", dir, []string{"openSent", "openConfirm", "established"}[sub%3], sub))
 			}
 			out = append(out, fmt.Sprintf("damping:%s:established:fin-midbody", dir), fmt.Sprintf("damping:%s:openSent:fin-midbody", dir), fmt.Sprintf("damping:%s:openConfirm:fin-midheader", dir))
+			for _, v := range []string{"badas", "hold1", "version3", "id-multicast"} {
+				out = append(out, fmt.Sprintf("damping:%s:openSent:sentopen.%s", dir, v))
+			}
 			// the remote reconnects while the error is still being handled
 			out = append(out, fmt.Sprintf("damping:%s:established:rcvd.3:slowerr=40", dir))
 		}
@@ -1806,6 +1897,13 @@ func init() {
 			out = append(out, fmt.Sprintf("collision-window:queued-close:lid=10.0.0.100:i=%d", i), fmt.Sprintf("collision-window:queued-delete:lid=10.0.0.100:i=%d", i))
 		}
 		out = append(out, "collision-window:queued-slow:lid=10.0.0.100:i=0")
+		// after an OPEN that was refused (a protocol error) the peer's next connection is not served
+		for _, dir := range []string{"in", "out"} {
+			out = append(out, fmt.Sprintf("damping:%s:openSent:sentopen.badas", dir), fmt.Sprintf("damping:%s:openSent:sentopen.hold2", dir))
+		}
+		for i := 0; i < 4; i++ {
+			out = append(out, fmt.Sprintf("collision-window:ka:lid=10.0.0.100:i=c13.%d", i))
+		}
 		// the hold-down after a repeated protocol error refuses inbound connections like the first one
 		out = append(out, "damping:in:established:rcvd.3:expire=3:ms=450", "damping:out:established:rcvd.3:expire=2:ms=450")
 		// an active peer whose outbound connection is in OpenConfirm (not Established) still admits the remote's connection
@@ -1847,6 +1945,8 @@ func init() {
 		}
 		// connections that match no peer / the wrong local address, then the API is used again (nothing may be left locked)
 		out = append(out, "admission:specific-local-wrong-dst", "admission:wild-local-wrong-dst", "admission:specific-unknown-src")
+		// negotiated hold time 0 with application writes (also from inside OnEstablished)
+		out = append(out, "writers:out:k=2:n=20:end=cease:inside=1:rhold=0:ms=100:i=0", "writers:in:k=1:n=5:end=close:inside=1:rhold=0:ms=100:i=0")
 		// API sequences around a failed listener: Serve again, Close
 		out = append(out, "shutdown:close:listener-error:dir=out:st=established", "shutdown:delete:listener-error:dir=out:st=openConfirm",
 			"shutdown:close:listeners:dir=in", "api-race:close-add:i=0", "api-race:delete-add:i=0")
